@@ -668,6 +668,28 @@ struct Emitter
                         addType(O, C->getType());
                         return O;
                     }
+                    case CK_IntegralCast: {
+                        // only narrowing integer conversions are kept (the value may change)
+                        QualType To = C->getType(), From = C->getSubExpr()->getType();
+                        if (To->isIntegralOrEnumerationType() && From->isIntegralOrEnumerationType() &&
+                            !To->isDependentType() && !From->isDependentType() && !To->isBooleanType() &&
+                            Ctx.getIntWidth(To) < Ctx.getIntWidth(From)) {
+                            Expr::EvalResult R;
+                            if (!C->getSubExpr()->isValueDependent() &&
+                                C->getSubExpr()->EvaluateAsInt(R, Ctx, Expr::SE_NoSideEffects))
+                                return lower(C->getSubExpr());   // a constant: nothing is lost that the folder does not see
+                            O["k"] = "cast";
+                            O["ck"] = "IntegralCast";
+                            O["narrow"] = true;
+                            O["bits"] = (int64_t)Ctx.getIntWidth(To);
+                            O["from_bits"] = (int64_t)Ctx.getIntWidth(From);
+                            O["uns"] = To->isUnsignedIntegerOrEnumerationType();
+                            O["e"] = lower(C->getSubExpr());
+                            addType(O, C->getType());
+                            return O;
+                        }
+                        return lower(C->getSubExpr());
+                    }
                     default:
                         return lower(C->getSubExpr());
                 }
@@ -689,6 +711,17 @@ struct Emitter
                 O["ck"] = C->getCastKindName();
                 O["e"] = lower(C->getSubExpr());
                 addType(O, C->getType());
+                if (C->getCastKind() == CK_IntegralCast) {
+                    QualType To = C->getType(), From = C->getSubExpr()->getType();
+                    if (To->isIntegralOrEnumerationType() && From->isIntegralOrEnumerationType() &&
+                        !To->isDependentType() && !From->isDependentType() && !To->isBooleanType() &&
+                        Ctx.getIntWidth(To) < Ctx.getIntWidth(From)) {
+                        O["narrow"] = true;
+                        O["bits"] = (int64_t)Ctx.getIntWidth(To);
+                        O["from_bits"] = (int64_t)Ctx.getIntWidth(From);
+                        O["uns"] = To->isUnsignedIntegerOrEnumerationType();
+                    }
+                }
                 if (isa<CXXDynamicCastExpr>(C))
                     O["dynamic"] = true;
                 return O;
